@@ -107,6 +107,85 @@ func Liabilities(ms store.Momentum) []Entry {
 	return out
 }
 
+// Released: a locked entry that is gone (or smaller) after a momentum; Appeared: one that is new (or larger);
+// Pay: a send by an embedded contract confirmed by the momentum.
+type Released struct {
+	C      string `json:"c"`
+	Kind   string `json:"kind"`
+	Owner  string `json:"owner"`
+	Alt    string `json:"alt"`
+	T      string `json:"t"`
+	Amt    Digits `json:"amt"`
+	Unlock int64  `json:"unlock"`
+}
+type Appeared struct {
+	Kind  string `json:"kind"`
+	Owner string `json:"owner"`
+}
+type Pay struct {
+	C   string `json:"c"`
+	To  string `json:"to"`
+	T   string `json:"t"`
+	Amt Digits `json:"amt"`
+}
+
+// EntryDiff compares the locked entries before and after a momentum.
+func EntryDiff(prev, cur []Entry) ([]Released, []Appeared) {
+	key := func(e Entry) string { return e.C + "|" + e.Kind + "|" + e.Id + "|" + e.Owner }
+	amt := func(e Entry) *big.Int {
+		if e.Amt == nil || e.Amt.Sign() < 0 {
+			return big.NewInt(0)
+		}
+		return e.Amt
+	}
+	now := map[string]Entry{}
+	for _, e := range cur {
+		now[key(e)] = e
+	}
+	was := map[string]Entry{}
+	for _, e := range prev {
+		was[key(e)] = e
+	}
+	rel, app := []Released{}, []Appeared{}
+	for _, e := range prev {
+		left := big.NewInt(0)
+		if n, ok := now[key(e)]; ok {
+			left = amt(n)
+		}
+		if d := new(big.Int).Sub(amt(e), left); d.Sign() > 0 {
+			rel = append(rel, Released{C: e.C, Kind: e.Kind, Owner: e.Owner, Alt: e.Alt, T: e.T, Amt: ToDigits(d), Unlock: e.Unlock})
+		}
+	}
+	for _, e := range cur {
+		had := big.NewInt(0)
+		if o, ok := was[key(e)]; ok {
+			had = amt(o)
+		}
+		if amt(e).Cmp(had) > 0 {
+			app = append(app, Appeared{Kind: e.Kind, Owner: e.Owner})
+		}
+	}
+	return rel, app
+}
+
+// ContractPays lists the sends of embedded contracts among the blocks of a momentum (descendants included).
+func ContractPays(blocks []*RawBlock) []Pay {
+	out := []Pay{}
+	var visit func(b *RawBlock)
+	visit = func(b *RawBlock) {
+		if b.BlockType == 4 { // nom.BlockTypeContractSend
+			out = append(out, Pay{C: b.Address, To: b.ToAddress, T: b.TokenStandard, Amt: ToDigits(b.Amt())})
+		}
+		for _, d := range b.DescendantBlocks {
+			visit(d)
+		}
+	}
+	for _, b := range blocks {
+		visit(b)
+	}
+	return out
+}
+
 // LiabSums: per contract and token, what the contract owes.
 func LiabSums(entries []Entry) []Liab {
 	sum := map[[2]string]*big.Int{}
@@ -238,8 +317,16 @@ func Rewards(ms store.Momentum, epochMomentums int64, extra map[string][2]*big.I
 // StandardObserver adds liabilities and rewards to every Mom event.
 func StandardObserver(epochMomentums int64) func(p *Projector, h uint64, ms store.Momentum, ev Event) {
 	maxAdd := [2]*big.Int{new(big.Int), new(big.Int)}
+	var prev []Entry
+	havePrev := false
 	return func(p *Projector, h uint64, ms store.Momentum, ev Event) {
-		ev["liab"] = LiabSums(Liabilities(ms))
+		entries := Liabilities(ms)
+		if havePrev && p.LastRaw != nil {
+			ev["rel"], ev["app"] = EntryDiff(prev, entries)
+			ev["pays"] = ContractPays(p.LastRaw.Blocks)
+		}
+		prev, havePrev = entries, true
+		ev["liab"] = LiabSums(entries)
 		if li, err := definition.GetLiquidityInfo(storageOf(ms, types.LiquidityContract)); err == nil && li != nil {
 			if li.ZnnReward != nil && li.ZnnReward.Cmp(maxAdd[0]) > 0 {
 				maxAdd[0] = new(big.Int).Set(li.ZnnReward)
